@@ -635,6 +635,9 @@ fn c17_hist<H: Hst>(out: &mut Out, tier: &str, rng: &mut Rng) {
         let u = 2f64.powi(-53);
         for (i, v) in vs.iter().enumerate() {
             out.x(*v >= -4.0 * u * n as f64 && *v <= (n as f64 / 4.0) * (1.0 + 4.0 * u), || format!("{}: variance of bin {} = {:?} outside [0,{}/4] counts {:?}", H::NAME, i, v, n, &h.bins_()[..H::LEN.min(10)]));
+            // ... and it is the multinomial variance count*(1 - count/total) of that bin
+            let c = h.bins_()[i] as f64; let want = c * (1.0 - c / n as f64);
+            out.x((v - want).abs() <= 1e-9 * want.abs() + 8.0 * n as f64 * u, || format!("{}: variance of bin {} = {:?}, count {} of {}: count*(1-count/total) = {:?}", H::NAME, i, v, h.bins_()[i], n, want));
         }
         out.note(H::NAME);
     }
@@ -709,6 +712,14 @@ fn c20_est<E: Est>(out: &mut Out, tier: &str, rng: &mut Rng) {
                 out.x(words(e) == want, || format!("{}: {} onto {} observations differs from the add loop: {} vs {}", E::NAME, nm, big.len().unwrap_or(0), words(e), want));
             }
         }
+        // a source that fails after some items (the caller recovers and adds the rest)
+        if n >= 2 {
+            let h = 1 + rng.below(n - 1);
+            let mut e = E::new();
+            let r = std::panic::catch_unwind(std::panic::AssertUnwindSafe(|| { let mut k = 0; e.extend_lazy_from(&mut || { if k == h { panic!("source failed") } let x = d[k]; k += 1; Some(x) }) }));
+            for x in &d[h..] { e.add(*x); }
+            out.x(r.is_err() && words(&e) == want, || format!("{}: extend from a source that fails after {} items, then adding the rest, differs from the add loop", E::NAME, h));
+        }
         // estimate() = headline statistic
         if let (Some((name, h)), Some(est)) = (by_add.headline(), by_add.estimate()) {
             out.x(h.to_bits() == est.to_bits() || (h.is_nan() && est.is_nan()), || format!("{}: estimate() = {:?} but {}() = {:?}", E::NAME, est, name, h));
@@ -761,6 +772,14 @@ fn c20_pair<E: PairEst>(out: &mut Out, tier: &str, rng: &mut Rng) {
         }
         out.x(words(&E::from_iter_lazy(&d)) == want, || format!("{}: collect from a filtered iterator differs from add loop", E::NAME));
         { let mut e = E::default(); e.extend_lazy(&d[..i]); e.extend_ref(&d[i..]); out.x(words(&e) == want, || format!("{}: default() + lazy extend differs from add loop", E::NAME)); }
+        // a source that fails after j - i items, one whose exact-looking size hint is too small
+        if j > i {
+            let mut e = E::from_iter_val(&d[..i]);
+            let r = std::panic::catch_unwind(std::panic::AssertUnwindSafe(|| e.extend_failing(&d[i..], j - i)));
+            for (a, b) in &d[j..] { e.add(*a, *b); }
+            out.x(r.is_err() && words(&e) == want, || format!("{}: extend from a source that fails after {} items, then adding the rest, differs from the add loop: {} vs {}", E::NAME, j - i, words(&e), want));
+        }
+        { let mut e = E::from_iter_short_hint(&d[..i]); e.extend_short_hint(&d[i..]); out.x(words(&e) == want, || format!("{}: collect / extend from iterators whose exact size hint is too small differs from the add loop", E::NAME)); }
         if n >= 1 && n <= 30 {
             let mut big = by_add.clone();
             for _ in 0..(31 + rng.below(25)) { let c = big.clone(); big.merge(&c); }
